@@ -303,6 +303,23 @@ def worker(inst):
 def instances(tier, seed):
     rng = random.Random(seed)
     out = []
+    def underscored(p):
+        """the same program over variable names that contain underscores (a -> a_1, b -> b_prev, s0 -> s_0 ...)"""
+        m = {"a": "a_1", "b": "b_prev", "c": "c_1_x", "d": "_d"}
+        import re as _re
+
+        def go(x):
+            if isinstance(x, str):
+                if x in m:
+                    return m[x]
+                if _re.fullmatch(r"[ust]\d+", x):
+                    return x[0] + "_" + x[1:]
+                return x
+            if isinstance(x, tuple):
+                return tuple(go(y) for y in x)
+            return x
+        return go(p)
+    base_len = None
     for sr in SEMIRINGS:
         for wrappers, repeat in ((False, False), (True, False), (False, True), (True, True)):
             progs = gen_exprs(rng, (60 if not repeat else 40) if tier == "quick" else 600, sr[0], sr[1], sr[2], 4 if tier == "quick" else 5, wrappers, repeat)
@@ -312,6 +329,8 @@ def instances(tier, seed):
                     out.append(("adj", sr, p, True, al))
                 if wrappers or repeat or rng.random() < 0.3:
                     out.append(("adj", sr, p, "reflect", al))
+                if rng.random() < 0.2:
+                    out.append(("adj", sr, underscored(p), rng.choice([False, True, "reflect"]), al))
         for p, al in gen_nested(rng, 40 if tier == "quick" else 400, sr[0], sr[1], sr[2]):
             for mode in (False, True, "reflect"):
                 out.append(("adj", sr, p, mode, al))
